@@ -5,10 +5,10 @@ From Coq Require Import ZifyBool ZifyNat.
 Open Scope Z_scope.
 
 (** * one operation *)
-Lemma op_step mx tnt x t o :
-  Jop mx tnt x t -> op_ok x o = true ->
+Lemma op_step mx kp tnt x t o :
+  Jop mx kp tnt x t -> op_ok x o = true ->
   let x' := fst (pstep x o) in let ob := snd (pstep x o) in let t' := postep 1 [mx] t o ob in
-  if is_div ob then F3 t' else Jop mx (tnt || negb (stop_clause t o ob)) x' t'.
+  if is_div ob then F3 t' else Jop mx kp (tnt || negb (stop_clause t o ob)) x' t'.
 Proof.
   intros HJ Hok. destruct o as [p body prio|p dl|p i|p i|p i|i|p dur|p|p|p|c]; cbn [op_ok] in Hok;
     try (apply andb_true_iff in Hok as [Hp Hok]); try (apply Nat.eqb_eq in Hp; subst p); try (apply Nat.eqb_eq in Hok; subst p).
@@ -45,7 +45,7 @@ Definition potr0 (clock : Z) (n : nat) : potr :=
      po_c01 := true; po_c02 := true; po_c11 := true; po_c12 := true; po_c13 := true |}.
 
 Lemma Jop_init clock cfg :
-  cfg_ok clock cfg = true -> Jop (snd (fst cfg)) false (pw0 clock [cfg]) (potr0 clock 1).
+  cfg_ok clock cfg = true -> Jop (snd (fst cfg)) (snd cfg) false (pw0 clock [cfg]) (potr0 clock 1).
 Proof.
   destruct cfg as [[mn mx] keep]. unfold cfg_ok. cbn [fst snd]. intro H.
   apply andb_true_iff in H as [H H4]. apply andb_true_iff in H as [H H3]. apply andb_true_iff in H as [H1 H2].
@@ -61,7 +61,8 @@ Proof.
     + intros ts w [].
     + intros ts w [].
     + split; [constructor | intros w []].
-  - constructor; cbn; try reflexivity; lia.
+  - constructor; cbn; try reflexivity; try lia.
+    split; [reflexivity|]. split; [lia|]. split; [|lia]. intros w k Hn. destruct w; discriminate.
   - constructor; cbn; try reflexivity; try discriminate; try lia. split; discriminate.
   - constructor.
     + reflexivity.
@@ -119,18 +120,18 @@ Lemma porun_cons n maxes t o r ob l :
   if is_div ob then (postep n maxes t o ob, is_nil l) else porun n maxes (postep n maxes t o ob) r l.
 Proof. cbn [porun]. destruct ob as [ok|rr e|rr|rr e|nn|s|]; try reflexivity; destruct rr; reflexivity. Qed.
 
-Lemma run_J mx : forall ops x t tnt,
-  Jop mx tnt x t -> hist_okp x ops = true ->
+Lemma run_J mx kp : forall ops x t tnt,
+  Jop mx kp tnt x t -> hist_okp x ops = true ->
   let res := porun 1 [mx] t ops (cut_div (prun x ops)) in
   snd res = true /\ F3 (fst res) /\
   (nodiv x ops = true ->
    po_c01 (fst res) = true /\ (tnt = false -> stops_prompt mx x t ops = true -> po_c11 (fst res) = true)).
 Proof.
   induction ops as [|o r IH]; intros x t tnt HJ Hok; cbv zeta.
-  - cbn [prun cut_div porun fst snd]. destruct HJ as [HJ _]. pose proof (j_w _ _ _ _ _ _ _ HJ) as [W1 W2 W3 W4 W5 W6].
+  - cbn [prun cut_div porun fst snd]. destruct HJ as [HJ _]. pose proof (j_w _ _ _ _ _ _ _ _ HJ) as [W1 W2 W3 W4 W5 W6].
     split; [reflexivity|]. split; [unfold F3; auto|]. intros _. split; [exact W3|]. intros Ht _. apply W4, Ht.
   - cbn [hist_okp] in Hok. apply andb_true_iff in Hok as [Hok1 Hok2].
-    pose proof (op_step mx tnt x t o HJ Hok1) as Hstep. cbv zeta in Hstep.
+    pose proof (op_step mx kp tnt x t o HJ Hok1) as Hstep. cbv zeta in Hstep.
     rewrite prun_cons, cut_div_cons. unfold nodiv. rewrite prun_cons. cbn [forallb stops_prompt].
     set (x' := fst (pstep x o)) in *. set (ob := snd (pstep x o)) in *. set (t' := postep 1 [mx] t o ob) in *.
     destruct (is_div ob) eqn:Ediv.
